@@ -56,11 +56,14 @@ def summarize_primitives(smir):
         vals = {}     # local -> dict(kind='ptr', perm, offset_uses_arg)
         self_mut = f.local_types.get(1, "").startswith("&mut")
         sinks = []
-        bb = 0
+        work = [0]
         seen = set()
-        while bb is not None and bb not in seen and bb in f.blocks:
+        while work:
+            bb = work.pop(0)
+            if bb is None or bb in seen or bb not in f.blocks:
+                continue
             seen.add(bb)
-            nxt = None
+            succ = []
             for text in f.blocks[bb]:
                 try:
                     st = mp.parse_stmt(text)
@@ -117,12 +120,14 @@ def summarize_primitives(smir):
                             sinks.append(dict(op=callee.split("::")[-1], perm=src["perm"], needs_mut=False, aligned=True, via=src.get("via")))
                         else:
                             sinks.append(dict(op="unknown call " + callee, perm=src["perm"], needs_mut=None, aligned=None, via=src.get("via")))
-                    nxt = cl.ret
+                    succ.append(cl.ret)
                 elif st[0] == "goto":
-                    nxt = st[1]
-                elif st[0] in ("switch", "assert", "drop"):
-                    nxt = st[-1] if st[0] != "switch" else None
-            bb = nxt
+                    succ.append(st[1])
+                elif st[0] == "switch":
+                    succ += list(st[2].values()) + [st[3]]
+                elif st[0] in ("assert", "drop"):
+                    succ.append(st[-1])
+            work += [x for x in succ if x is not None]
         out[prim] = dict(sinks=sinks)
     return out
 
